@@ -115,6 +115,7 @@ private theorem doOp_restored (T : TtyOps A) (main : Bool) (stack : List (Ctx A 
   | envTty k => exact absurd he (by simp [isEnvOp])
   | envFl k => exact absurd he (by simp [isEnvOp])
   | envSigint hh => exact absurd he (by simp [isEnvOp])
+  | envSize k => exact Restored.refl w
   | request out =>
     simp only [doOp]
     split
@@ -254,6 +255,7 @@ private theorem run_alt (T : TtyOps A) (main : Bool) (body : Body A) :
       | envTty k => simp [doOp, ha]
       | envFl k => simp [doOp, ha]
       | envSigint hh => simp [doOp, ha]
+      | envSize k => simp [doOp, ha]
     simp only [run]
     split
     · exact h1
